@@ -48,6 +48,7 @@ type Pkg struct {
 }
 
 type World struct {
+	normalized bool // this world is the source-normalised variant (normalize.go)
 	Repo  string
 	Pkgs  map[string]*Pkg
 	Order []string
